@@ -1928,7 +1928,7 @@ func (c S3ApiController) PutActions(ctx *fiber.Ctx) error {
 			Acc:           acct,
 			Bucket:        bucket,
 			Object:        keyStart,
-			Action:        auth.PutBucketTaggingAction,
+			Action:        auth.PutObjectTaggingAction,
 		})
 		if err != nil {
 			return SendResponse(ctx, err,
